@@ -57,7 +57,7 @@ def classify(case, ob, raw):
 # ------------------------------------------------------------------------------------------ cases
 def gen_cases(chk, tier):
     r = chk.rng
-    n = {'quick': dict(js=120, js3=80, nb=70, nb3=60, ex=400), 'thorough': dict(js=2500, js3=1500, nb=1200, nb3=1000, ex=6000)}[tier]
+    n = {'quick': dict(js=120, js3=80, nb=70, nb3=60, nb3b=24, ex=400), 'thorough': dict(js=2500, js3=1500, nb=1200, nb3=1000, nb3b=400, ex=6000)}[tier]
     cases = []
     cdir = os.path.join(core.VERIF, 'corpus', PROP)
     if os.path.isdir(cdir):
@@ -87,6 +87,12 @@ def gen_cases(chk, tier):
         b_, l, rr = G.gen_nb_triple(r)
         args = r.choice(G.MERGE_ARGS)
         for c in G.NB3_CALLS: cases.append({'call': c, 'base': b_, 'local': l, 'remote': rr, 'args': args, 'src': 'nb3'})
+    # re-bundled decisions: a container (outputs list, cell / notebook metadata) with one child in conflict and a sibling edited on
+    # both sides in disjoint parts -> several decisions on one common_path carrying patch ops on the same key (c13_gen, comment there)
+    for _ in range(n['nb3b']):
+        b_, l, rr, shape = G.gen_nb_triple_bundled(r)
+        args = r.choice(G.BUNDLING_ARGS)
+        for c in G.NB3_CALLS: cases.append({'call': c, 'base': b_, 'local': l, 'remote': rr, 'args': args, 'src': 'nb3-bundled:' + shape})
     return cases
 
 def strip(case):
@@ -366,7 +372,8 @@ def run(tier, seed):
             'evaluations': len(cases) + len(ptasks) + len(otasks), 'distinct_nontrivial': len(nontriv),
             'rule': 'public calls (diff, diff_notebooks, patch[+plain-dict diff, +on notebooks], patch_notebook, decide_merge, decide_notebook_merge, '
                     'merge_notebooks x strategies, apply_decisions, pretty_print_{notebook,diff,notebook_diff,merge_decisions,notebook_merge}) on exhaustive small '
-                    'JSON pairs, random JSON pairs/triples (genjson) and random v4 notebooks rich in display_data/execute_result outputs (c13_gen); '
+                    'JSON pairs, random JSON pairs/triples (genjson), random v4 notebooks rich in display_data/execute_result outputs and notebook triples whose merge re-bundles '
+                    'several decisions onto one path and key (c13_gen); '
                     'non-trivial = the result holds at least one list/dict (aliasing possible) or a renderer was given a non-empty diff/decision list; '
                     'distinct by sha1 of (call, inputs)',
             'input_distribution': hist, 'traces_validated_against_impl': t1, 'model_impl_mismatches': mism,
